@@ -76,6 +76,15 @@ pub fn gen(seed: u64, tier: &str) -> Vec<Value> {
         if rng.gen_bool(0.03) { v.push(0xe9); }
         out.push(json!({"kind":"parse","class":"arbitrary_header","value":bytes_json(&v),"extra_header":rng.gen_bool(0.3)}));
     }
+    // values that are valid UTF-8 but not ASCII: every prefix shape x a multi-byte character at the end, in the middle, alone
+    for pre in ["", "5", "12", "99999999", "1S", " "] { for tail in ["µ", "€", "é", "日", "\u{1F600}", "ｍ", "µS", "éS", "S\u{0301}"] {
+        let mut v = pre.as_bytes().to_vec(); v.extend_from_slice(tail.as_bytes());
+        out.push(json!({"kind":"parse","class":"utf8_header","value":bytes_json(&v),"extra_header":false}));
+    } }
+    // and bytes that are not UTF-8 at all
+    for v in [vec![0xb5u8], vec![b'5', 0xb5], vec![b'5', 0xc2], vec![0xff, b'S'], vec![b'1', 0x80, b'S']] {
+        out.push(json!({"kind":"parse","class":"non_utf8_header","value":bytes_json(&v),"extra_header":false}));
+    }
     out.push(json!({"kind":"absent","class":"absent"}));
     out
 }
